@@ -91,15 +91,15 @@ Analyse(k, P) ==
         excl |-> ZeroRow(P) \/ ZeroCol(P),       \* input excluded by the documentation of lp.Simplex
         num |-> val[1], den |-> val[2],
         fb |-> {Zero(I.B) : I \in feas},          \* all feasible bases
-        ob |-> {Zero(I.B) : I \in {J \in feas : J.dualfeas}},   \* the optimal ones among them
+        ob |-> {Zero(I.B) : I \in {J \in feas : J.optcert}},   \* the optimal ones among them
         nfb |-> Cardinality(feas),
         ncost |-> Cardinality(Costs(infos)),      \* distinct vertex costs
         degen |-> \E I \in feas : I.degen,
         \* for the theorems only (not used by the harness)
         th |-> [sing |-> IsSingular(infos), infeas |-> IsInfeasible(infos),
                 unb |-> IsUnbounded(infos), opt |-> IsOptimal(infos),
-                certcosts |-> {Rat(I.cnum, I.det) : I \in {J \in feas : J.dualfeas}},
-                anydual |-> \E I \in infos : I.dualfeas]]
+                certcosts |-> {Rat(I.cnum, I.det) : I \in {J \in feas : J.optcert}},
+                anydual |-> \E B \in Bases : DualFeasible(P, B)]]
 
 Indices == {Shard + NShards * t : t \in 0 .. ((Count - 1 - Shard) \div NShards)}
 
